@@ -190,6 +190,7 @@ func runProperty(P *Program, pf *PropFile, findings *FindingsFile, timeout int, 
 	var mu sync.Mutex
 	done := map[string]bool{}
 	sem := make(chan struct{}, 6)
+	retrySem := make(chan struct{}, 2)
 	runWave := func(keys []string, dep bool) []*funcRun {
 		wave := make([]*funcRun, len(keys))
 		var wg sync.WaitGroup
@@ -217,6 +218,26 @@ func runProperty(P *Program, pf *PropFile, findings *FindingsFile, timeout int, 
 				// round 1: every obligation of the function (a failed assertion is assumed afterwards, so an
 				// unrelated failure could make this property's obligations pass vacuously)
 				all := solveAll(g, dir, timeout, false, func(o *obligation) bool { return selected(o) || real(o) }, 6)
+				// A time-out under load is not a verdict: obligations that ran out of time are tried once
+				// more, one at a time, with four times the budget (bounded: at most eight per function).
+				var slow []int
+				for i, r := range all {
+					if real(r.Obl) && r.Answer.Result == "timeout" {
+						slow = append(slow, i)
+					}
+				}
+				if len(slow) > 0 && len(slow) <= 8 {
+					retrySem <- struct{}{}
+					for _, i := range slow {
+						want := all[i].Obl
+						rr := solveAll(g, dir, timeout*4, false, func(o *obligation) bool { return o == want }, 1)
+						if len(rr) == 1 && rr[0].Answer.Result == "unsat" {
+							rr[0].Answer.Retried = true
+							all[i] = rr[0]
+						}
+					}
+					<-retrySem
+				}
 				failing := map[int]bool{}
 				for _, r := range all {
 					if real(r.Obl) && r.Answer.Result != "unsat" {
